@@ -126,7 +126,7 @@ theorem searchStep_frame {b : Backend σ} {sp : Space} {obj : Obj} {c : Call} {i
     {d d' : DState σ} {cs cs' : CState}
     (hinv : cs.nInitSearch = min i cs.nInitsNorm) (hi : i < c.nIter)
     (h : searchStep b sp obj c i d cs = .ok (d', cs')) : StepFrame sp obj c i d d' cs cs' := by
-  unfold searchStep at h
+  unfold searchStep stepTail at h
   simp only [bind, Except.bind, pure, Except.pure] at h
   by_cases hlt : i < cs.nInitsNorm
   · -- initialisation phase
